@@ -276,6 +276,25 @@ TOKRAUS = Id('choi_op_to_kraus_op.plumbing', ['numqi.channel._internal:choi_op_t
              call=_tokraus_call, post=_tokraus_post, sample=_tokraus_sample, label=lambda sh: f'din={sh[0]},dout={sh[1]},eigenvalues_below_threshold={sh[2]}')
 TOKRAUS.comparable = lambda r: []
 
+
+def _tokraus_semantic(rng, sh):
+    # end-to-end, no stubs: Kraus operators returned for a Choi / super operator reproduce it, and there are at most D of them (random channels of every Kraus rank)
+    din, dout, n0 = sh; D = din * dout
+    for t in range(12):
+        terms = int(rng.integers(1, D + 1))
+        if terms * dout < din:
+            continue
+        K = numqi.random.rand_kraus_op(terms, din, dout, seed=int(rng.integers(0, 2 ** 31)))
+        C = ch.kraus_op_to_choi_op(K)
+        K1 = ch.choi_op_to_kraus_op(C, din); K2 = ch.super_op_to_kraus_op(ch.choi_op_to_super_op(C, din))
+        for Kx, nm in ((K1, 'choi_op_to_kraus_op'), (K2, 'super_op_to_kraus_op')):
+            if Kx.ndim != 3 or Kx.shape[1:] != (dout, din) or Kx.shape[0] > D or np.abs(ch.kraus_op_to_choi_op(Kx) - C).max() > 1e-8:
+                return False, dict(function=nm, din=din, dout=dout, kraus=jsonable(K))
+    return True, None
+
+
+TOKRAUS.semantic = _tokraus_semantic
+
 # ---- get_fidelity (numpy branch): the pure-state cases are exact identities; the mixed/mixed case is proved modulo the ASSUMED contracts of eigh / eigvalsh:
 # with rho0 = V diag(w) V^dagger the matrix handed to eigvalsh is D V^dagger rho1 V D, D = diag(sqrt(max(0,w))) (unitarily similar to sqrt(rho0) rho1 sqrt(rho0) for unitary V),
 # and the result is (sum of the square roots of its non-negative eigenvalues)^2.
@@ -355,6 +374,29 @@ FID = Id('get_fidelity.numpy_branch', ['numqi.utils:get_fidelity'],
          inputs=lambda d: dict(rho0=alg.sym_complex('p', (d, d))[0], rho1=alg.sym_complex('q', (d, d))[0], a=alg.sym_complex('a', (d,))[0], b=alg.sym_complex('b', (d,))[0], V=alg.sym_complex('v', (d, d))[0]),
          call=_fid_call, post=_fid_post, sample=_fid_sample, label=lambda d: f'd={d}', modules=[_ut])
 FID.comparable = lambda r: []
+
+
+def _fid_semantic(rng, d):
+    # end-to-end, no stubs: Uhlmann fidelity (Tr sqrt(sqrt(rho0) rho1 sqrt(rho0)))^2 with the matrix square roots taken by scipy, for mixed / pure arguments of every rank
+    import scipy.linalg
+    def dm(rank):
+        x = _rc(rng, d, rank); m = x @ x.conj().T
+        return m / np.trace(m).real
+    def ket():
+        x = _rc(rng, d); return x / np.linalg.norm(x)
+    def F(a, b):
+        s0 = scipy.linalg.sqrtm(a); return float(np.real(np.trace(scipy.linalg.sqrtm(s0 @ b @ s0))) ** 2)
+    for t in range(20):
+        r0, r1 = dm(int(rng.integers(2, d + 1))), dm(int(rng.integers(2, d + 1))); a, b = ket(), ket()
+        P = lambda v: np.outer(v, v.conj())
+        for x, y, ref in ((r0, r1, F(r0, r1)), (a, b, abs(np.vdot(a, b)) ** 2), (a, r1, float(np.real(a.conj() @ r1 @ a))), (r0, b, float(np.real(b.conj() @ r0 @ b)))):
+            if abs(float(_ut.get_fidelity(x, y)) - ref) > 1e-6:
+                return False, dict(function='get_fidelity', x=jsonable(x), y=jsonable(y), oracle=ref)
+    return True, None
+
+
+FID.semantic = _fid_semantic
+FID.direct_clauses = ('pure_pure_is', 'pure_mixed_is', 'mixed_pure_is')      # exact identities on the real function, no stub involved
 
 # ---- entropies / trace distance (numpy branch), proved modulo the ASSUMED contracts of eigvalsh / eigh (same pattern as get_fidelity): the stubs record their
 # operand and hand back fixed rational spectra (positive, well above eps; mixed signs for the trace distance) and a fully
@@ -466,6 +508,30 @@ ENTROPY = Id('entropies.numpy_branch', ['numqi.utils:get_von_neumann_entropy', '
              inputs=lambda d: dict(rho=_herm('p', d), sigma=_herm('q', d), V=alg.sym_complex('v', (d, d))[0], t=sp.Symbol('t_rlr', real=True)),
              call=_ent_call, post=_ent_post, sample=_ent_sample, label=lambda d: f'd={d}', modules=[_ut])
 ENTROPY.comparable = lambda r: []
+
+
+def _ent_semantic(rng, d):
+    # end-to-end, no stubs: entropies / trace distance against eigenvalue oracles (full-rank states, so that no clamp is involved)
+    def dm():
+        x = _rc(rng, d, d); m = x @ x.conj().T + 0.05 * np.eye(d)
+        return m / np.trace(m).real
+    for t in range(20):
+        rho, sigma = dm(), dm()
+        w = np.linalg.eigvalsh(rho); S = float(-(w * np.log(w)).sum())
+        ws, vs = np.linalg.eigh(sigma); rel = float(np.real(np.trace(rho @ ((vs * np.log(ws)) @ vs.conj().T)))) * -1 - S
+        td = float(np.abs(np.linalg.eigvalsh(rho - sigma)).sum() / 2)
+        got = dict(get_von_neumann_entropy=(float(_ut.get_von_neumann_entropy(rho)), S), get_trace_distance=(float(_ut.get_trace_distance(rho, sigma)), td),
+                   get_relative_entropy=(float(_ut.get_relative_entropy(rho, sigma)), rel), get_relative_entropy_given=(float(_ut.get_relative_entropy(rho, sigma, tr_rho_log_rho=-S)), rel))
+        vb = np.asarray(_ut.get_von_neumann_entropy(np.stack([rho, sigma])))
+        if vb.shape != (2,) or abs(vb[0] - S) > 1e-9:
+            return False, dict(function='get_von_neumann_entropy (batched)', rho=jsonable(rho), sigma=jsonable(sigma))
+        for k, (g, ref) in got.items():
+            if abs(g - ref) > 1e-8:
+                return False, dict(function=k, rho=jsonable(rho), sigma=jsonable(sigma), returned=g, oracle=ref)
+    return True, None
+
+
+ENTROPY.semantic = _ent_semantic
 
 CONTRACTS = {c.name: c for c in [EQUIV, CONV, BLOCH, NOISE, TOKRAUS, FID, ENTROPY]}
 
